@@ -25,11 +25,16 @@ pub struct ElfSpec {
     /// extra dynamic entries before the interesting ones
     pub dyn_pad: u32,
     pub with_pt_phdr: bool,
+    /// section table and section-name strings live in an extra page at the end of the file,
+    /// which the loader does not map
+    pub sections_at_end: bool,
 }
 
 #[derive(Clone, Debug)]
 pub struct ElfImage {
     pub file: Vec<u8>,
+    /// number of bytes the loader maps (file may be longer)
+    pub mapped_len: u64,
     pub phoff: u64,
     pub phnum: u64,
     pub text_off: u64,
@@ -89,7 +94,8 @@ pub fn build(spec: &ElfSpec) -> ElfImage {
     let text_off = 0x1000u64;
     let text_len = text_pages * 0x1000;
     let data_off = text_off + text_len;
-    let total = data_off + 0x1000;
+    let mapped = data_off + 0x1000;
+    let total = if spec.sections && spec.sections_at_end { mapped + 0x1000 } else { mapped };
     let mut f = vec![0u8; total as usize];
 
     // text
@@ -173,8 +179,7 @@ pub fn build(spec: &ElfSpec) -> ElfImage {
     }
 
     // sections
-    let shstr_off = 0x380u64;
-    let shoff = 0x400u64;
+    let (shstr_off, shoff) = if spec.sections_at_end { (mapped + 0x380, mapped + 0x400) } else { (0x380u64, 0x400u64) };
     let mut shnum = 0u16;
     if spec.sections {
         let names = b"\0.text\0.note.gnu.build-id\0.shstrtab\0.dynamic\0.dynstr\0";
@@ -228,6 +233,7 @@ pub fn build(spec: &ElfSpec) -> ElfImage {
 
     ElfImage {
         file: f,
+        mapped_len: mapped,
         phoff,
         phnum,
         text_off,
